@@ -48,6 +48,14 @@ FIRST_CONTACT = {   # seeds the checks missed when first run against them, and w
     "C18-7": "missed -> battery history: expiry priced, truncation parameter reassigned, same expiry priced again",
     "C18-8": "missed -> battery: FFT = COS on the second of two models differing in one parameter only; after a spot update",
     "C19-7": "missed (memoising decorators were dropped) -> decorators modelled; clauses 'theta after the pricer's model changed'",
+    "C01-9": "missed by C01 (caught by C13) -> rates battery extended to the probability-step grid with the grid's own cell boundaries",
+    "C03-8": "missed by C03 (caught by C13) -> C13's refine contract (per-axis) also runs under C03",
+    "C04-9": "missed by C04 (caught by C10) -> C10's martingale lemma (rate reassigned after construction) also runs under C04",
+    "C05-7": "missed -> adaptive-loop clause: the reported level statistics are the sample statistics, not the engine's working copies",
+    "C05-8": "missed -> lemma: the adjusted-payoff statistics are a separate copy (real MCStatistics constructor)",
+    "C11-7": "missed -> Clayton lemmas re-run after ANOTHER copula object was evaluated (class-level memo keyed by dimension)",
+    "C11-8": "missed -> Clayton lemmas re-run after the SAME object was evaluated in the other dimension (first-use memo)",
+    "C16-7": "undecided (model built without its constructor) -> rate models built by their real constructors; route 'initial rates reassigned'",
 }
 
 
